@@ -10,11 +10,13 @@
 //@ prop C01 C02 C03 C17 : Dewey::new DeweyMatch::new lemma_get_eq lemma_ops_from
 //@ prop C01 C02 C03 C17 C18 : Dewey::matches
 //@ prop C03 C02 : law_two_bounds
+//@ prop C17 : DeweyError::description DeweyError::fmt
 #![allow(unused_imports)]
 use vstd::prelude::*;
 use vstd::utf8::*;
 use vstd::string::*;
 use std::cmp::Ordering;
+use std::fmt;
 use vstd::std_specs::cmp::OrdSpec;
 use vstd::std_specs::iter::IteratorSpec;
 verus! {
@@ -30,7 +32,36 @@ pub assume_specification<T: core::cmp::Ord> [core::cmp::min] (a: T, b: T) -> (r:
 //@ include lib/dewey_tok_spec.rs
 //@ include lib/dewey_match_spec.rs
 //@ include lib/dewey_views.rs
+//@ include lib/std_fmt.rs
 
+/// decimal text of a usize as printed by `{}` (uninterpreted)
+pub uninterp spec fn usize_text(n: usize) -> Seq<char>;
+// shim D8.write_dewey_error
+#[verifier::external_body]
+fn shim_fmt_dewey_error(f: &mut fmt::Formatter, pos: usize, msg: &'static str) -> (r: fmt::Result)
+    ensures r is Ok ==> fout(final(f)) == fout(old(f)) + "Pattern syntax error near position "@ + usize_text(pos) + ": "@ + msg@
+{ write!(f, "Pattern syntax error near position {}: {}", pos, msg) }
+impl DeweyError {
+//@ extract src/dewey.rs : impl Error for DeweyError fn description
+    fn description(&self) -> (r: &str)
+        ensures r@ == self.msg@
+    {
+        self.msg
+    }
+//@ end
+//@ extract src/dewey.rs : impl fmt::Display for DeweyError fn fmt
+//@ rewrite D8.write_dewey_error
+    fn fmt(&self, f: &mut fmt::Formatter) -> (r: fmt::Result)
+        ensures r is Ok ==> fout(final(f)) == fout(old(f)) + "Pattern syntax error near position "@ + usize_text(self.pos) + ": "@ + self.msg@
+    {
+        write!(
+            f,
+            "Pattern syntax error near position {}: {}",
+            self.pos, self.msg
+        )
+    }
+//@ end
+}
 
 impl DeweyVersion {
 
